@@ -10,5 +10,5 @@ CONSTANTS
  Roots <- RootsOA
  EmitOn = FALSE
 VIEW View
-INVARIANTS Refines FormatTheorems
+INVARIANTS Refines FormatTheorems TranscribeOK
 CHECK_DEADLOCK FALSE
